@@ -16,6 +16,7 @@ independent axes.
 from operator import xor
 
 import numpy as np
+from pb_bss import _verif
 from dataclasses import dataclass
 from pb_bss.distribution import (
     ComplexAngularCentralGaussian,
@@ -198,6 +199,11 @@ class VMFCACGMMTrainer:
                 spatial_weight=spatial_weight,
                 spectral_weight=spectral_weight
             )
+            if _verif.ENABLED:
+                _verif.step(
+                    self, iteration, model, affiliation,
+                    quadratic_form=quadratic_form,
+                )
 
         return model
 
